@@ -28,6 +28,7 @@ if [ -n "$demo" ]; then
     whispertool|whispertool_test) d=. ;;
     cmd|cmd_test) d=cmd ;;
     compattest|compattest_test) d=internal/compattest ;;
+    main|main_test) d=cmd/whispertool ;;
     *) d=. ;;
   esac
   cp $demo $d/zz_seed_demo_test.go
